@@ -76,6 +76,38 @@ class Interp:
             return cubed.from_array(data, chunks=chunks, spec=self.spec)
         return self.xp.asarray(data, chunks=chunks, spec=self.spec)
 
+    def make_target(self, st, a0):
+        """Create (once) the user-side Zarr target of a store step.  This is the USER's action, not cubed's: the laziness
+        check calls it outside the observed window."""
+        import os
+        import tempfile
+        import zarr
+        key = id(st)
+        cache = self.__dict__.setdefault("_targets_by_step", {})
+        if key in cache:
+            return cache[key]
+        kw = st.get("kw", {})
+        op = st["op"]
+        tshape = tuple(kw["tshape"]) if op == "store_region" else tuple(a0.shape)
+        region = tuple(slice(r[0], r[1]) for r in kw["region"]) if op == "store_region" else None
+        d = tempfile.mkdtemp(prefix="target-", dir=self.spec.work_dir)
+        extra = {}
+        if kw.get("tshards"):
+            extra["shards"] = tuple(kw["tshards"])
+        z = zarr.create_array(d + "/t.zarr", shape=tshape, chunks=tuple(kw["tchunks"]), dtype=a0.dtype, fill_value=-1, **extra)
+        if kw.get("prefill") is not None:
+            z[...] = kw["prefill"]
+        self.targets = getattr(self, "targets", []) + [z]
+        unit = tuple(kw.get("tshards") or kw["tchunks"])
+        if region is None:
+            nk = int(np.prod([-(-n // u) for n, u in zip(tshape, unit)]))
+        else:
+            nk = int(np.prod([len(range(r.start // u, -(-r.stop // u))) for r, u in zip(region, unit)]))
+        self.target_info = getattr(self, "target_info", {})
+        self.target_info[os.path.normpath(d + "/t.zarr")] = dict(nkeys=nk)
+        cache[key] = z
+        return z
+
     def step(self, st, vals):
         xp = self.xp
         op = st["op"]
@@ -84,6 +116,15 @@ class Interp:
         for k in ("axis", "axes", "shape", "shift", "repetitions", "source", "destination"):
             if isinstance(kw.get(k), list):
                 kw[k] = tuple(kw[k])
+        if op == "pad":
+            kw["pad_width"] = tuple(tuple(p) for p in kw["pad_width"])
+            cv = kw.get("constant_values")
+            if isinstance(cv, (list, tuple)):
+                kw["constant_values"] = tuple(tuple(c) if isinstance(c, (list, tuple)) else c for c in cv)
+            if self.is_cubed:
+                import cubed
+                return cubed.pad(a[0], **kw)
+            return np.pad(a[0], **kw)
         if op == "index":
             return a[0][_idx(kw["idx"])]
         if op == "rechunk":
@@ -138,23 +179,7 @@ class Interp:
                 out[region] = a[0]
                 return out
             import cubed
-            import tempfile
-            import zarr
-            d = tempfile.mkdtemp(prefix="target-", dir=self.spec.work_dir)
-            extra = {}
-            if kw.get("tshards"):
-                extra["shards"] = tuple(kw["tshards"])
-            z = zarr.create_array(d + "/t.zarr", shape=tshape, chunks=tuple(kw["tchunks"]), dtype=a[0].dtype, fill_value=-1, **extra)
-            if kw.get("prefill") is not None:
-                z[...] = kw["prefill"]
-            self.targets = getattr(self, "targets", []) + [z]
-            unit = tuple(kw.get("tshards") or kw["tchunks"])
-            if region is None:
-                nk = int(np.prod([-(-n // u) for n, u in zip(tshape, unit)]))
-            else:
-                nk = int(np.prod([len(range(r.start // u, -(-r.stop // u))) for r, u in zip(region, unit)]))
-            self.target_info = getattr(self, "target_info", {})
-            self.target_info[__import__("os").path.normpath(d + "/t.zarr")] = dict(nkeys=nk)
+            z = self.make_target(st, a[0])
             return cubed.to_zarr(a[0], z, region=region, compute=False)
         if op == "qr":
             if self.is_cubed:
@@ -223,17 +248,17 @@ def all_chunkings(shape, rng, k=1):
 
 
 def rand_shape(rng, ndim=None, maxel=60, exts=(1, 2, 3, 4, 5, 6, 7, 9)):
-    ndim = rng.choice([1, 1, 2, 2, 2, 3]) if ndim is None else ndim
+    ndim = rng.choice([1, 1, 2, 2, 2, 3, 3]) if ndim is None else ndim
     while True:
         shp = [rng.choice(exts) for _ in range(ndim)]
         if int(np.prod(shp)) <= maxel:
             return shp
 
 
-def gen_program(rng, max_steps=5, allow=None, dtypes=("int64", "int64", "int32", "float64", "uint8", "bool")):
+def gen_program(rng, max_steps=5, allow=None, dtypes=("int64", "int64", "int32", "float64", "uint8", "bool"), ndim=None):
     """Random well-formed program (NumPy evaluates it).  Returns (prog, np_values)."""
     for _ in range(200):
-        prog = _gen_once(rng, max_steps, allow, dtypes)
+        prog = _gen_once(rng, max_steps, allow, dtypes, ndim)
         try:
             with np.errstate(all="ignore"):
                 vals = Interp(np, False).run(prog)
@@ -252,9 +277,9 @@ REDUCE = ["sum", "max", "min", "prod", "mean_sq", "any", "all", "split_sum"]
 ARGRED = ["argmax", "argmin"]
 
 
-def _gen_once(rng, max_steps, allow, dtypes):
+def _gen_once(rng, max_steps, allow, dtypes, ndim=None):
     ninp = rng.choice([1, 1, 2, 2, 3])
-    base = rand_shape(rng)
+    base = rand_shape(rng, ndim=ndim)
     inputs = []
     for i in range(ninp):
         shp = list(base) if rng.random() < 0.7 else rand_shape(rng, ndim=len(base))
@@ -272,7 +297,7 @@ def _gen_once(rng, max_steps, allow, dtypes):
                          "expand", "squeeze", "flip", "roll", "repeat", "tile", "concat", "stack", "unstack", "broadcast_to",
                          "index", "index", "rechunk", "rechunk", "astype", "matmul", "tensordot", "outer", "tril", "take",
                          "moveaxis", "scalar", "diff", "clip", "map_blocks", "vecdot", "searchsorted", "pad", "isin",
-                         "cumprod", "matrix_transpose", "overlap", "nan", "count_nonzero"]
+                         "cumprod", "matrix_transpose", "overlap", "nan", "count_nonzero", "moveaxis", "pad"]
     tries = 0
     while len(steps) < nsteps and tries < 60:
         tries += 1
@@ -389,6 +414,9 @@ def _gen_step(rng, kind, vals):
         if i is None:
             return None
         nd = A(i).ndim
+        if nd >= 3 and rng.random() < 0.7:
+            k = rng.randint(2, nd)
+            return dict(op="moveaxis", args=[i], kw=dict(source=rng.sample(range(nd), k), destination=rng.sample(range(nd), k)))
         return dict(op="moveaxis", args=[i], kw=dict(source=rng.randrange(nd), destination=rng.randrange(-nd, nd)))
     if kind == "expand":
         i = _pick(rng, vals, lambda a: a.ndim <= 2)
@@ -547,7 +575,15 @@ def _gen_step(rng, kind, vals):
         pw = [[0, 0]] * nd
         pw = [list(p) for p in pw]
         pw[ax] = [rng.randint(0, 2), rng.randint(0, 2)]
-        return dict(op="pad", args=[i], kw=dict(pad_width=pw, mode="constant"))
+        kw = dict(pad_width=pw, mode="constant")
+        r = rng.random()
+        if r < 0.3:
+            kw["constant_values"] = rng.randint(-3, 3)
+        elif r < 0.6:
+            kw["constant_values"] = [rng.randint(-3, 3), rng.randint(4, 9)]
+        elif r < 0.75:
+            kw["constant_values"] = [[rng.randint(-3, 3), rng.randint(4, 9)] for _ in range(nd)]
+        return dict(op="pad", args=[i], kw=kw)
     if kind == "isin":
         i = _pick(rng, vals, lambda a: a.dtype.kind in "i" and a.ndim >= 1)
         j = _pick(rng, vals, lambda a: a.dtype.kind in "i" and a.ndim >= 1 and a.size <= 30, prefer_late=False)
